@@ -248,3 +248,71 @@ def _m13():
     versioning.simplify_specifiers = f
     from bfg9000.builtins import pkg_config
     pkg_config.simplify_specifiers = f
+
+
+@mutant('win_no_backslash_doubling')
+def _m14():
+    # backslash runs before a quote / the end are no longer doubled
+    from bfg9000.shell import windows as w
+
+    def inner_quote_info(s, escape_percent=False):
+        from bfg9000.safe_str import shell_literal
+        if isinstance(s, shell_literal):
+            return s.string, False
+        if s == '':
+            return '', True
+        if escape_percent:
+            s = s.replace('%', '%%')
+        if not w._bad_chars.search(s):
+            return s, False
+        return s.replace('"', '\\"'), True
+    w.inner_quote_info = inner_quote_info
+
+
+@mutant('win_tab_safe')
+def _m15():
+    # only the space character (not every white-space) forces quoting
+    from bfg9000.shell import windows as w
+    w._bad_chars = re.compile(r'( |["&<>|]|\\$)')
+
+
+@mutant('uuid_save_all')
+def _m16():
+    # harmless-looking: save every known GUID, not only the ones seen -> must NOT break the laws
+    # checked here except "a removed project is forgotten"; used as a *negative control*: the
+    # stronger mutant below must be caught
+    from bfg9000.backends.msbuild import solution as msol
+    orig = msol.UuidMap.__getitem__
+
+    def getitem(self, key):
+        self._seen.add(key)
+        if key in self._map and key != 'b':
+            return self._map[key]
+        import uuid
+        u = uuid.uuid4()
+        self._map[key] = u
+        return u
+    msol.UuidMap.__getitem__ = getitem
+
+
+@mutant('uuid_forget_load')
+def _m17():
+    # the saved map is read but its keys are dropped when the version matches exactly
+    from bfg9000.backends.msbuild import solution as msol
+    orig = msol.UuidMap._load.__func__
+
+    def _load(cls, path):
+        m = orig(cls, path)
+        return {k: v for k, v in m.items() if k != 'c'}
+    msol.UuidMap._load = classmethod(_load)
+
+
+@mutant('sln_dep_wrong_uuid')
+def _m18():
+    # ProjectDependencies written with the solution's GUID instead of the dependency's
+    from bfg9000.backends.msbuild import solution as msol
+    src = open(msol.__file__).read()
+    src = src.replace('.extend(Var(i.uuid_str, i.uuid_str)', '.extend(Var(self.uuid_str, self.uuid_str)')
+    ns = {'__name__': 'bfg9000.backends.msbuild.solution', '__package__': 'bfg9000.backends.msbuild'}
+    exec(compile(src, msol.__file__, 'exec'), ns)
+    msol.Solution.write = ns['Solution'].write
